@@ -31,6 +31,7 @@ def consts : List (String × String) := [
   ("x/did/client/crypto.kdf", "pbkdf2"),
   ("x/did/client/crypto.macKeyOffset", "16"),
   ("x/did/client/crypto.macKeySize", "16"),
+  ("x/did/client/crypto.maxPBKDF2C", "10000000"),
   ("x/did/client/crypto.maxPBKDF2DKLen", "1024"),
   ("x/did/client/crypto.mnemonicEntropySize", "256"),
   ("x/did/client/crypto.pbkdf2C", "262144"),
@@ -180,7 +181,7 @@ def lockPaths : List (String × List (List String)) := [
   ("Save", [[], ["Lock", "Unlock"]])]
 
 /-- skeletons of the `init` functions per package (empty list: the package has none) -/
-def initFuncs : List (String × List String) := [("x/aol/types", ["call RegisterCodec(amino)", "call amino.Seal()"])]
+def initFuncs : List (String × List String) := [("x/aol/types", ["call RegisterCodec(amino)", "call amino.Seal()", "call RegisterCodec(authzcodec.Amino)"]), ("x/did/types", ["call RegisterCodec(authzcodec.Amino)"])]
 
 /-- which of Route / Type / GetSignBytes / GetSigners / ValidateBasic each message type implements -/
 def msgMethods : List (String × List String) := [
@@ -207,7 +208,7 @@ def validationConsts : List (String × String) := [("x/aol/types.maxDescriptionL
 def compkeyConsts : List (String × String) := [("types/compkey.maxUint8", "255"), ("types/compkey.sizeUint8", "1"), ("x/aol/types.GenesisKeySeparator", "/")]
 
 /-- constants of the key store -/
-def keystoreConsts : List (String × String) := [("x/did/client/crypto.cipherAlgorithm", "aes-128-ctr"), ("x/did/client/crypto.cipherKeySize", "16"), ("x/did/client/crypto.defaultAccountForHD", "0"), ("x/did/client/crypto.defaultIndexForHD", "0"), ("x/did/client/crypto.kdf", "pbkdf2"), ("x/did/client/crypto.macKeyOffset", "16"), ("x/did/client/crypto.macKeySize", "16"), ("x/did/client/crypto.maxPBKDF2DKLen", "1024"), ("x/did/client/crypto.mnemonicEntropySize", "256"), ("x/did/client/crypto.pbkdf2C", "262144"), ("x/did/client/crypto.pbkdf2DKLen", "32"), ("x/did/client/crypto.pbkdf2PRFStr", "hmac-sha256"), ("x/did/client/crypto.saltBytes", "32"), ("x/did/client/crypto.version", "3")]
+def keystoreConsts : List (String × String) := [("x/did/client/crypto.cipherAlgorithm", "aes-128-ctr"), ("x/did/client/crypto.cipherKeySize", "16"), ("x/did/client/crypto.defaultAccountForHD", "0"), ("x/did/client/crypto.defaultIndexForHD", "0"), ("x/did/client/crypto.kdf", "pbkdf2"), ("x/did/client/crypto.macKeyOffset", "16"), ("x/did/client/crypto.macKeySize", "16"), ("x/did/client/crypto.maxPBKDF2C", "10000000"), ("x/did/client/crypto.maxPBKDF2DKLen", "1024"), ("x/did/client/crypto.mnemonicEntropySize", "256"), ("x/did/client/crypto.pbkdf2C", "262144"), ("x/did/client/crypto.pbkdf2DKLen", "32"), ("x/did/client/crypto.pbkdf2PRFStr", "hmac-sha256"), ("x/did/client/crypto.saltBytes", "32"), ("x/did/client/crypto.version", "3")]
 
 /-- the module-local amino codecs -/
 def aminoVars : List (String × String × String) := [("x/aol/types.ModuleCdc", "*codec.AminoCodec", "codec.NewAminoCodec(amino)"), ("x/aol/types.amino", "*codec.LegacyAmino", "codec.NewLegacyAmino()"), ("x/burn/types.ModuleCdc", "*codec.AminoCodec", "codec.NewAminoCodec(amino)"), ("x/burn/types.amino", "*codec.LegacyAmino", "codec.NewLegacyAmino()"), ("x/did/types.ModuleCdc", "*codec.AminoCodec", "codec.NewAminoCodec(amino)"), ("x/did/types.amino", "*codec.LegacyAmino", "codec.NewLegacyAmino()"), ("x/pnft/types.ModuleCdc", "*codec.AminoCodec", "codec.NewAminoCodec(amino)"), ("x/pnft/types.amino", "*codec.LegacyAmino", "codec.NewLegacyAmino()")]
